@@ -182,12 +182,15 @@ _NP_ERR = None
 def reset_library_state():
     """Called at the start of every simulated run."""
     global _BASELINE, _NP_ERR
+    import random as _random
+    _random.seed(20240921)          # code under test that draws from the global `random` must not break replay
     try:
         import numpy as np
         if _NP_ERR is None:
             _NP_ERR = np.geterr()
         elif np.geterr() != _NP_ERR:
             np.seterr(**_NP_ERR)            # process-global NumPy error state changed by an earlier run
+        np.random.seed(20240921)
     except Exception:
         pass
     if _BASELINE is None:
